@@ -288,7 +288,32 @@ def run(ctx):
               'the saturation re-checks consult a different zone (%s) than the one the civil time was interpreted in: with a parsed '
               'UTC offset and a non-UTC argument zone an unrepresentable instant is accepted or a representable one rejected'
               % sorted(z.split('#')[0] for z in recv), construct='exit:samezone', detail=', '.join(sorted(z.split('#')[0] for z in recv)))
-    ctx.minimum('C09-exit', 8)
+    # the instant handed back on the final path is the very value that was range-checked: the pre field of the lookup
+    # of the civil time, nothing added to it afterwards
+    outp = [p_ for p_ in params_of(f) if re.search(r'time_point<.*>\s*\*$', (dtype(p_) or qtype(p_) or '').replace('const', ''))]
+    stores = []
+    for x_ in walk(f):
+        if x_.get('kind') == 'CXXOperatorCallExpr' and callee(x_) and callee(x_)[0] == 'fn' and callee(x_)[1].get('name') == 'operator=' \
+                and len(call_args(x_)) == 2:
+            l_ = peel(call_args(x_)[0])
+            if l_.get('kind') == 'UnaryOperator' and l_.get('opcode') == '*' and outp and \
+                    (peel(kids(l_)[0]).get('referencedDecl') or {}).get('id') == outp[0]['id']:
+                stores.append(x_)
+    fin_nodes = set(n_.id for n_ in g.live if _reach(g, n_, [final]))
+    last = [x_ for x_ in stores if any(n_.id in fin_nodes for n_ in g.nodes_for(x_)) and
+            not any(_reach(g, n_, [early]) for n_ in g.nodes_for(x_))]
+    okv = bool(last)
+    got_ = []
+    for x_ in last:
+        vk_ = F.ident_key(call_args(x_)[1])
+        got_.append(vk_)
+        if not re.match(r'^\w+#0x[0-9a-f]+\.lookup\(\w+#0x[0-9a-f]+\)\.pre$', vk_):
+            okv = False
+    ctx.check3(okv if last else None, 'C09-exit', 'the instant stored is the range-checked lookup(cs).pre itself', last[0] if last else f,
+               'parse() stores %s, not the pre field of the lookup that the range checks examined: the result can lie beyond the '
+               'checked range (or is moved after an ambiguous civil time was resolved)' % got_, construct='exit:stored-value',
+               detail=', '.join(got_)[:100])
+    ctx.minimum('C09-exit', 9)
 
     # ---- C09-cursor
     n = cursor.check_function(ctx, 'C09-cursor', kp)
